@@ -57,9 +57,36 @@ METHODS = ["trace", "debug", "info", "success", "warning", "error", "critical", 
 KEY_ASYNC_WITH = "C17-async-with-catch-frame"
 KEY_ASYNC_FOR = "C17-asyncgen-anext-frame"
 KEY_FALLBACK = "C17-fallback-getframe-beyond-stack"
+KEY_OVERFLOW = "C17-depth-exceeds-c-int"        # F30, fixed by 3f4f1c9: a reappearance is a plain violation
+# findings reported to the integrator but not yet listed in known_findings.json (reported through ctx.note only)
+PENDING_FINDINGS = []
+
+# depths around the limits of the C int / C long `sys._getframe` converts its argument to
+BOUNDARY_DEPTHS = [2**31 - 4, 2**31 - 3, 2**31 - 2, 2**31 - 1, 2**31, 2**32 - 2, 2**32, 2**63 - 3, 2**63 - 2, 2**63, 2**64,
+                   10**30]
+
+
+class _Depth(int):
+    """an int subclass (legal wherever an int is)"""
+
+
+def wrap_depth(depth, dkind):
+    """the same depth as another legal integer type: bool, IntEnum member, int subclass"""
+    if dkind == "bool" and depth in (0, 1):
+        return bool(depth)
+    if dkind == "enum" and 0 <= depth < 64:
+        import enum
+        return enum.IntEnum("D", {"V%d" % depth: depth})["V%d" % depth]
+    if dkind == "subclass":
+        return _Depth(depth)
+    return depth
 
 
 def report(ctx, what, replay, key=None, kind="oracle"):
+    if key in PENDING_FINDINGS and not any(f.get("key") == key for f in getattr(ctx, "findings", [])):
+        ctx.note("pending finding %s: %s" % (key, what[:300]))
+        ctx.stat("pending_finding_hits:" + key)
+        return False
     return ctx.violation(what, replay, key=key, kind=kind)
 
 
@@ -354,7 +381,47 @@ class Chain:
 
 # ----------------------------------------------------------------------------- loggers / entry points
 VIAS = ["direct", "bind", "patch", "opt_bind", "bind_opt", "patch_opt", "opt_patch", "opt_opt", "opt_flags",
-        "opt_then_default", "bind_patch_opt", "opt_any", "opt_any", "opt_any_bind"]
+        "opt_then_default", "bind_patch_opt", "opt_any", "opt_any", "opt_any_bind", "seq", "seq", "seq"]
+
+
+def gen_seq(rng, depth):
+    """a derivation HISTORY from the root logger: any mixture of bind / patch / opt(depth=k) / opt(); most histories make
+    `depth` the effective one (last opt), some end in opt() (reset to the default) or contain no opt at all"""
+    def noise(n, with_opt):
+        out = []
+        for _ in range(n):
+            r = rng.below(100)
+            if r < 35:
+                out.append(["b"])
+            elif r < 70:
+                out.append(["p"])
+            elif with_opt and r < 90:
+                out.append(["o", rng.choice([0, 1, 2, depth + 1, depth + 7, 50])])
+            elif with_opt:
+                out.append(["o", None])
+            else:
+                out.append(["b"])
+        return out
+    r = rng.below(100)
+    if r < 8:
+        return noise(rng.range(0, 4), False)                          # no opt at all: depth 0
+    if r < 16:
+        return noise(rng.range(0, 3), True) + [["o", depth], ["o", None]] + noise(rng.range(0, 2), False)   # reset
+    return noise(rng.range(0, 4), True) + [["o", depth]] + noise(rng.range(0, 3), False)
+
+
+def seq_depth(seq):
+    """documented semantics: bind/patch keep the options, every opt() call sets depth anew (default 0)"""
+    d = 0
+    for op in seq:
+        if op[0] == "o":
+            d = 0 if op[1] is None else op[1]
+    return d
+
+
+def seq_token(seq):
+    return ".".join("od" if (op[0] == "o" and op[1] is None) else ("o%d" % op[1] if op[0] == "o" else op[0])
+                    for op in seq) or "-"
 
 
 def opt_keywords(logger):
@@ -383,9 +450,22 @@ def _noop_patcher(record):
     record["extra"]["patched"] = True
 
 
-def derive(logger, via, depth, rng_flags):
+def derive(logger, via, depth, rng_flags, seq=None, dkind=None):
     """returns (logger, effective depth per the documented semantics: bind/patch keep the options,
     each opt() call resets every option it is not given)"""
+    if via == "seq":
+        lg = logger
+        for k, op in enumerate(seq):
+            if op[0] == "b":
+                lg = lg.bind(**{"k%d" % k: k})
+            elif op[0] == "p":
+                lg = lg.patch(_noop_patcher)
+            elif op[1] is None:
+                lg = lg.opt()
+            else:
+                lg = lg.opt(depth=op[1])
+        return lg, seq_depth(seq)
+    depth = wrap_depth(depth, dkind)
     if via == "direct":
         if depth == 0:
             return logger, 0
@@ -564,6 +644,14 @@ def make_jobs(chain, rng, ctx, full_sweep, total_hint):
                 for leaf in CATCH_LEAVES:
                     for rr in (False, True):
                         jobs.append({"leaf": leaf, "method": "info", "via": via, "depth": d, "flags": rng.below(1 << 16), "reraise": rr})
+        for d in BOUNDARY_DEPTHS:
+            for leaf in ["plain"] + CATCH_LEAVES:
+                for via in ("direct", "bind_patch_opt", "seq"):
+                    jobs.append({"leaf": leaf, "method": rng.choice(METHODS), "via": via, "depth": d,
+                                 "flags": rng.below(1 << 16), "reraise": False})
+        for j in jobs:
+            if j["via"] == "seq":
+                j["seq"] = gen_seq(rng, j["depth"])
         return jobs
     depths = list(range(0, total_hint + 4)) if full_sweep else [rng.range(0, total_hint + 3) for _ in range(6)]
     for d in depths:
@@ -577,6 +665,25 @@ def make_jobs(chain, rng, ctx, full_sweep, total_hint):
             rn = [rng.choice(["thread", "thread", "process"]), rng.choice(ACTOR_NAMES)]
         jobs.append({"leaf": leaf, "method": rng.choice(METHODS), "via": rng.choice(VIAS), "depth": d,
                      "flags": rng.below(1 << 16), "reraise": rng.chance(15), "rename": rn})
+        if jobs[-1]["via"] == "seq":
+            jobs[-1]["seq"] = gen_seq(rng, d)
+            ctx.stat("seq_len:%d" % min(len(jobs[-1]["seq"]), 8))
+        elif rng.chance(10):
+            jobs[-1]["dkind"] = rng.choice(["bool", "enum", "subclass"])
+            ctx.stat("dkind:" + jobs[-1]["dkind"])
+    if full_sweep:
+        # depths at the limits of the C integer types sys._getframe converts to: the frame does not exist -> placeholders
+        for _ in range(2):
+            d = rng.choice(BOUNDARY_DEPTHS)
+            leaf = rng.choice(leaves_plain) if rng.chance(50) else rng.choice(CATCH_LEAVES)
+            via = rng.choice(VIAS)
+            if via == "opt_then_default":
+                via = "direct"
+            jobs.append({"leaf": leaf, "method": rng.choice(METHODS), "via": via, "depth": d,
+                         "flags": rng.below(1 << 16), "reraise": False, "rename": None})
+            if via == "seq":
+                jobs[-1]["seq"] = gen_seq(rng, d)
+            ctx.stat("depth:boundary")
     return jobs
 
 
@@ -593,8 +700,8 @@ def run_chain(ctx, env, chain_state, nlinks, in_thread, foreign, full_sweep, lin
         if job.get("probe"):
             leafg["CALL"], leafg["MSG"], leafg["CM"] = probe, "probe", ProbeCM
             return chain.thunk(job["leaf"])
-        lg, eff = derive(logger, job["via"], job["depth"], job["flags"])
-        job["eff"] = eff
+        lg, eff = derive(logger, job["via"], job["depth"], job["flags"], job.get("seq"), job.get("dkind"))
+        job["eff"] = int(eff)
         leaf = job["leaf"]
         if leaf in PLAIN_LEAVES:
             leafg["CALL"] = method_callable(lg, job["method"], job["flags"])
@@ -643,7 +750,7 @@ def run_chain(ctx, env, chain_state, nlinks, in_thread, foreign, full_sweep, lin
     bad = 0
 
     start_us = to_us(env.start_time())
-    JK = ("leaf", "method", "via", "depth", "flags", "reraise", "rename")
+    JK = ("leaf", "method", "via", "depth", "flags", "reraise", "rename", "seq", "dkind")
     for ji, (job, (o, rs)) in enumerate(zip(jobs, recs_by_job)):
         res, err, (tid, tname, pname), t0, t1 = o
         leaf, d = job["leaf"], job["eff"]
@@ -663,6 +770,8 @@ def run_chain(ctx, env, chain_state, nlinks, in_thread, foreign, full_sweep, lin
         replay = {"stream": "chain", "chain_state": chain_state, "nlinks": nlinks, "in_thread": in_thread, "foreign": foreign,
                   "job": {k: job.get(k) for k in JK}}
         fkey = FINDING_KEY.get(leaf)
+        if isinstance(err, OverflowError):
+            fkey = KEY_OVERFLOW
         what = None
         if err is not None and not (is_catch and job["reraise"] and isinstance(err, ValueError) and str(err) == "boom"):
             what = "logging call raised %r instead of producing a record" % (err,)
@@ -705,7 +814,10 @@ def run_chain(ctx, env, chain_state, nlinks, in_thread, foreign, full_sweep, lin
             rec = rs[0]
             kind = "c" if is_catch else "m"
             nm = SHAPE_OF[leaf] if is_catch else job["method"]
-            toks = [kind, enc(nm), str(d), str(tid), str(os.getpid()), str(to_us(rec["time"])), str(start_us)]
+            if job["via"] == "seq":     # the model computes the options from the derivation history itself
+                toks = ["s", kind, enc(nm), seq_token(job["seq"]), str(tid), str(os.getpid()), str(to_us(rec["time"])), str(start_us)]
+            else:
+                toks = [kind, enc(nm), str(d), str(tid), str(os.getpid()), str(to_us(rec["time"])), str(start_us)]
             Em = E if d >= len(E) else E[:d + 2]          # the model only needs the frames up to the selected one
             for (gname, file, func, line) in Em:
                 toks += ["!" if gname is MISSING else "~" if gname is None else enc(gname) if isinstance(gname, str) else "~",
@@ -1284,7 +1396,7 @@ def run(ctx):
         stream_fallback(ctx, env)
         stream_identity(ctx, env)
         stream_identity_mp(ctx, env)
-        nchains = ctx.n(500, 9000) * boost
+        nchains = ctx.n(380, 9000) * boost
         for i in range(nchains):
             crng = ctx.rng.fork("chain%d" % i)
             state = crng.s
